@@ -59,16 +59,18 @@ type vStored struct {
 
 // vShapes picks the (key, value) shapes of one message: every one of
 // nil / empty / non-empty occurs for both fields across the four combinations.
+// The parameter "shapes" (default 4) restricts the alphabet to its first n
+// combinations (deeper tiers trade alphabet for length).
 func vShapes() (int, int) {
-	switch vChoose(4) {
+	switch vChoose(vParam("shapes", 4)) {
 	case 0:
 		return 0, 0 // nil key, nil value
 	case 1:
-		return 1, 2 // empty key, 1-byte value
+		return 3, 3 // 2-byte key, 2-byte value
 	case 2:
-		return 2, 1 // 1-byte key, empty value
+		return 1, 2 // empty key, 1-byte value
 	}
-	return 3, 3 // 2-byte key, 2-byte value
+	return 2, 1 // 1-byte key, empty value
 }
 
 func vDrawMsg(prevTs int64, epoch uint64, withHeaders bool) (*Message, vStored) {
